@@ -12,6 +12,21 @@ Definition op_of_val (v : val) : md4op :=
   | _ => OpHexSum
   end.
 
+(* histories that also use the verification hook MD4.VerifAddCount (the bit counter advanced by a whole number
+   of blocks without hashing data): [VL [VN bits]] *)
+Fixpoint md4_run_ext (st : md4st) (ops : list val) : list (list N) :=
+  match ops with
+  | [] => []
+  | VL [VN bits] :: r =>
+      md4_run_ext (mk_md4st (st_h st) ((st_count st + Z.to_N bits) mod 18446744073709551616) (st_buf st)) r
+  | v :: r =>
+      match op_of_val v with
+      | OpWrite p => md4_run_ext (md4_write st p) r
+      | OpSum => let '(d, st') := md4_sum st in d :: md4_run_ext st' r
+      | OpHexSum => let '(d, st') := md4_hexsum st in d :: md4_run_ext st' r
+      end
+  end.
+
 Definition val_of_stmt (s : stmt) : val :=
   let '(f, dst, (p, q, u, v), k, sh) := s in
   VL [vN f; vN dst; vN p; vN q; vN u; vN v; vnat k; vN sh].
@@ -37,6 +52,7 @@ Definition dispatch_C01 (f : string) (args : list val) : val :=
       else vunknown
   | [VL ops] =>
       if f =? "md4.ops" then VL (map VB (md4_run md4_new (map op_of_val ops)))
+      else if f =? "md4.ops_ext" then VL (map VB (md4_run_ext md4_new ops))
       else vunknown
   | [VN c] =>
       if f =? "c01.lower_cp" then vN (go_lower_cp (Z.to_N c))
